@@ -246,7 +246,7 @@ def pick_rt_id(i):
     return -7
 
 
-def roundtrip(idsel1, idsel2, n_notes, legacy_mode, typed):
+def roundtrip(idsel1, idsel2, n_notes, legacy_mode, typed, blob=None):
     """request 1 and request 2 are sent one after the other; the server answers each with n_notes notifications
     followed by the response.  stdio: lines; Streamable HTTP/JSON: the response as the POST body (this carrier cannot
     express the notifications: they are left out of its comparison); Streamable HTTP/SSE: an event-stream body;
@@ -263,9 +263,9 @@ def roundtrip(idsel1, idsel2, n_notes, legacy_mode, typed):
     for rid in (r1, r2):
         notes = []
         for _ in range(n_notes):
-            notes.append({"jsonrpc": "2.0", "method": "notifications/message", "params": {"seq": seq}})
+            notes.append({"jsonrpc": "2.0", "method": "notifications/message", "params": ({"seq": seq} if blob is None else {"seq": seq, "blob": blob})})
             seq += 1
-        turns.append((rid, notes, {"jsonrpc": "2.0", "id": rid, "result": {"ok": seq}}))
+        turns.append((rid, notes, {"jsonrpc": "2.0", "id": rid, "result": ({"ok": seq} if blob is None else {"ok": seq, "blob": blob})}))
     expected = [m for (_r, ns, resp) in turns for m in ns + [resp]]
     expected_no_notes = [resp for (_r, _ns, resp) in turns]
 
@@ -284,7 +284,7 @@ def roundtrip(idsel1, idsel2, n_notes, legacy_mode, typed):
     H11.W.plan, H11.W.posts = [], []
     t = H11.make_transport()
     for rid, _ns, resp in turns:
-        H11.W.plan.append(("resp", H11.FakeResponse(200, {"Content-Type": "application/json"}, _json.dumps(resp).encode())))
+        H11.W.plan.append(("resp", H11.FakeResponse(200, {"Content-Type": "application/json"}, _json.dumps(resp, ensure_ascii=(blob is None)).encode())))
     for rid, _ns, _resp in turns:
         drive(t._send_message_internal(mk(rid)))
     got = [dump(m) for m in t._incoming_send.items]
@@ -294,7 +294,7 @@ def roundtrip(idsel1, idsel2, n_notes, legacy_mode, typed):
     H11.W.plan, H11.W.posts = [], []
     t = H11.make_transport()
     for rid, ns, resp in turns:
-        body = "".join("event: message\ndata: " + _json.dumps(m) + "\n\n" for m in ns + [resp])
+        body = "".join("event: message\ndata: " + _json.dumps(m, ensure_ascii=(blob is None)) + "\n\n" for m in ns + [resp])
         H11.W.plan.append(("resp", H11.FakeResponse(200, {"Content-Type": "text/event-stream"}, body.encode())))
     for rid, _ns, _resp in turns:
         drive(t._send_message_internal(mk(rid)))
@@ -304,12 +304,12 @@ def roundtrip(idsel1, idsel2, n_notes, legacy_mode, typed):
     # 4 legacy SSE
     chunks, plan = [], []
     for rid, ns, resp in turns:
-        evs = ["event: message\ndata: " + _json.dumps(m) + "\n\n" for m in ns]
+        evs = ["event: message\ndata: " + _json.dumps(m, ensure_ascii=(blob is None)) + "\n\n" for m in ns]
         if legacy_mode == 0:
             chunks += evs
-            plan.append({"status": 200, "body": _json.dumps(resp).encode(), "deliver_during_post": len(evs)})
+            plan.append({"status": 200, "body": _json.dumps(resp, ensure_ascii=(blob is None)).encode(), "deliver_during_post": len(evs)})
         else:
-            evs.append("event: message\ndata: " + _json.dumps(resp) + "\n\n")
+            evs.append("event: message\ndata: " + _json.dumps(resp, ensure_ascii=(blob is None)) + "\n\n")
             chunks += evs
             plan.append({"status": 202, "deliver_during_post": (len(evs) if legacy_mode == 2 else 0)})
     H12._reset(chunks, "silent")
@@ -328,3 +328,14 @@ def roundtrip(idsel1, idsel2, n_notes, legacy_mode, typed):
     if not same_json(got, expected):
         return "roundtrip-differs-on:legacy-sse"
     return "ok"
+
+
+from harness import sizes as _sizes  # noqa: E402
+
+_sizes.size_cases(70000, extra=_sizes.ENV_SIZES)
+
+
+def roundtrip_long(k, pat, legacy_mode, typed):
+    """size dimension: results and notifications carry a string of c-1, c, c+1 characters (raw UTF-8 on the wire: the engine's own JSON encoder, which replaces the stdlib one inside a traced path, recurses per character when escaping)"""
+    n = _sizes.pick(_sizes.size_cases(70000, extra=_sizes.ENV_SIZES), k)
+    return roundtrip(1, 0, 1, legacy_mode, typed, blob=_sizes.long_text(n, pat))
